@@ -7,7 +7,12 @@ Space (every member is visited, nothing sampled):
   strs  : every 1-character corruption of reference encodings by every non-alphabet character of a
           fixed character menu at every position; every length 0..24 (!= 22) built from valid
           characters; all 57*57 settings of the two most significant digits over three lower-digit
-          fills (the 2**128 frontier); canonical spellings for uuid_from_str
+          fills (the 2**128 frontier); canonical spellings for uuid_from_str; one character inserted
+          into / appended to a valid encoding (wrong length AND foreign character)
+  seqs  : every sequence of <= 3 operations (encode n, decode enc(n), uuid_from_str on short strings
+          that differ only in letter case and on canonical spellings) over a pool of values with
+          different numbers of significant digits, each from a freshly reloaded module (E2: the codec
+          must have no memory)
 Oracle: an independent codec written from the documented format (57-letter alphabet, least
 significant digit first, padded with the zero letter to 22 characters).
 """
@@ -19,17 +24,21 @@ from ak import short_uuid as impl
 
 ID = "C20"
 TITLE = "Short uuid strings are a bijective encoding of UUIDs"
-TECHNIQUE = "bounded exhaustive input enumeration against an independent reference codec"
+TECHNIQUE = ("bounded exhaustive input enumeration + all operation sequences <= 3 from pristine module state, "
+             "against an independent reference codec")
 DESIGN_REF = "§2 C20"
 LEVEL_TEXT = ("Every UUID integer with at most two non-zero base-57 digits, all power boundaries, and "
               "every single-defect string is run through the real codec and compared with an "
-              "independent one; covers any defect that depends on at most two digit positions.")
+              "independent one; covers any defect that depends on at most two digit positions. Every "
+              "sequence of <= 3 codec operations over a value pool is run from a freshly reloaded module, "
+              "so state kept between calls (buffers, caches) shows up as a reproducible violation.")
 LEVEL_NOTE = ("Small-scope: values with three or more 'interesting' digits only in the thorough tier's "
               "position triples. Trusted: the reference codec in this file, Python's uuid.UUID.")
 RULE = ("case = one integer (encode, alphabet/length test, decode, compare with reference codec, "
         "uuid_from_str on short and canonical forms) or one string (must be rejected with ValueError "
         "unless the reference codec says it denotes a value < 2**128). Non-trivial: integers with two "
-        "non-zero digits, strings within one edit of a valid encoding, frontier strings.")
+        "non-zero digits, strings within one edit of a valid encoding, frontier strings, operation "
+        "sequences (each result compared with the reference independent of history).")
 ASSUMPTIONS = [
     "inputs are str objects (non-str arguments are outside the property)",
     "a defect depending on three or more specific digit positions is outside the quick bound",
